@@ -611,7 +611,8 @@ def gen_newreq_program(rng):
     # task 0 = A: read r0; if r0 == 1 require B.   task 1 = B: requires C_1..C_k (directly or through a middle task).
     # what A does AFTER the new require returned (the nested build must have restored A as the executing task):
     #   nothing / another read / another require / an overlapping write (violation) / a require that closes a cycle (violation)
-    tailkind = rng.choice(['none', 'read', 'read', 'require', 'overlap', 'cycle'])
+    extra_first = []
+    tailkind = rng.choice(['none', 'read', 'read', 'require', 'overlap', 'cycle', 'hidden_read', 'hidden_write'])
     p.tasks[0] = None
     tid = 2
     body = ('T', ('a',))
@@ -647,6 +648,21 @@ def gen_newreq_program(rng):
         bk = tid; tid += 1
         p.tasks[bk] = ('Q', 0, 0, ('T', ('a',))); tail = ('Q', bk, 0, ('T', ('a',)))
         p.kind = 'inject'
+    elif tailkind == 'hidden_read':
+        # an unrelated task H generates product 31; A reads it after the nested require without requiring H: a hidden dependency
+        # that must be diagnosed on the reading side (the executing task must be A again after the nested execution)
+        h = tid; tid += 1; src = 41; p.sources.append(src)
+        p.generated = {31: (h, 0)}
+        p.tasks[h] = ('R', src, 0, ('W', 31, 0, ('k', 6), ('T', ('a',))))
+        tail = ('R', 31, 0, ('T', ('a',)))
+        p.kind = 'inject'; extra_first = [h]
+    elif tailkind == 'hidden_write':
+        # an unrelated task Rd reads resource 32; A writes it after the nested require: a hidden dependency that must be diagnosed
+        # on the writing side, before the resource is modified
+        rd = tid; tid += 1; p.sources.append(32)
+        p.tasks[rd] = ('R', 32, 0, ('T', ('a',)))
+        tail = ('W', 32, 0, ('k', 8), ('T', ('a',)))
+        p.kind = 'inject'; extra_first = [rd]
     p.tasks[0] = ('R', 0, 0, ('I', ('l', 2), ('Q', 1, (0 if rng.random() < 0.85 else 2), tail), ('T', ('k', 5))))
     # an independent scheduled chain M -> L (... -> L'), unrelated to B: it sits in the queue while B's dependencies are pulled out of it
     chain = []
@@ -662,7 +678,9 @@ def gen_newreq_program(rng):
         chain = ids
     steps = [['E', str(i), '0'] for i in range(k + 1)] + [['E', str(x), '0'] for x in extra_srcs] + ([['E', '40', '7']] if 40 in p.sources else [])
     if shared is not None: steps.append(['E', str(shared), '3'])
-    first = [['S', '1', 'q', '0'], ['S', '1', 'q', '1']] + ([['S', '1', 'q', str(chain[0])]] if chain else [])
+    if 41 in p.sources: steps.append(['E', '41', '2'])
+    if 32 in p.sources: steps.append(['E', '32', '5'])
+    first = [['S', '1', 'q', '0'], ['S', '1', 'q', '1']] + ([['S', '1', 'q', str(chain[0])]] if chain else []) + [['S', '1', 'q', str(x)] for x in extra_first]
     rng.shuffle(first)
     steps += first
     changed = [0] + [1 + i for i in range(k) if rng.random() < 0.85] + [x for x in extra_srcs if rng.random() < 0.9]
